@@ -80,6 +80,60 @@ Theorem C14_parser_syntax :
 Proof. exact parse_vlan_range_syntax. Qed.
 Print Assumptions C14_parser_syntax.
 
+(* COMPLETENESS of ParseVLANRange: every string of the stated shape with 1 <= a <= b <= 4094 is
+   accepted and denotes exactly a..b (so "rejected" means: not of that shape, or out of range) *)
+Theorem C14_parser_complete :
+  forall s a b, vlan_syntax s a b -> (1 <= a <= b)%N -> (b <= 4094)%N ->
+  parse_vlan_range s = Some (nseq a (N.to_nat (b - a + 1))).
+Proof. exact parse_vlan_range_complete. Qed.
+Print Assumptions C14_parser_complete.
+
+(* both directions together: the accepted range strings are exactly the well-formed in-range ones *)
+Theorem C14_parser_exact :
+  forall s l, parse_vlan_range s = Some l <->
+  exists a b, vlan_syntax s a b /\ (1 <= a <= b)%N /\ (b <= 4094)%N /\ l = nseq a (N.to_nat (b - a + 1)).
+Proof. exact parse_vlan_range_iff. Qed.
+Print Assumptions C14_parser_exact.
+
+(* ParseCVLAN accepts only  ws*  (= any),  ws* [aA][nN][yY] ws*  (= any)  or  ws* digits ws*  with
+   1 <= v <= 4094 (= exact v) *)
+Theorem C14_cvlan_syntax :
+  forall s r, parse_cvlan s = Some r -> cvlan_syntax s r /\ sel_in_range r.
+Proof. exact parse_cvlan_syntax. Qed.
+Print Assumptions C14_cvlan_syntax.
+
+(* ... and accepts every such string with the stated selector *)
+Theorem C14_cvlan_complete :
+  forall s r, cvlan_syntax s r -> sel_in_range r -> parse_cvlan s = Some r.
+Proof. exact parse_cvlan_complete. Qed.
+Print Assumptions C14_cvlan_complete.
+
+(* which strings are the wildcard selector: blank after trimming, or "any" in any letter case *)
+Theorem C14_cvlan_any_iff :
+  forall s, parse_cvlan s = Some SelAny <-> trim s = [] \/ map lower (trim s) = s_any.
+Proof. exact parse_cvlan_any_iff. Qed.
+Print Assumptions C14_cvlan_any_iff.
+
+(* Lookup is constant on the classes induced by the configuration's range endpoints: two S-VLANs
+   (C-VLANs) that compare the same way with every cut point a, b+1 of a parsed S-VLAN range a..b
+   (v, v+1 of an exact C-VLAN v) are classified identically.  Hence a sweep over one representative
+   per class is the sweep over all 4096 x 4096 pairs. *)
+Theorem C14_lookup_class_invariant :
+  forall cfg s s' c c',
+  (forall p, In p (s_cuts cfg) -> N.leb p s = N.leb p s') ->
+  (forall p, In p (c_cuts cfg) -> N.leb p c = N.leb p c') ->
+  lookup (build cfg) s c = lookup (build cfg) s' c'.
+Proof. exact lookup_class_invariant. Qed.
+Print Assumptions C14_lookup_class_invariant.
+
+(* the representative used by the model driver (largest cut point <= x, else 0) is in x's class:
+   the index answers (s, c) exactly as the reference scan answers (rep s, rep c) *)
+Theorem C14_lookup_via_representative :
+  forall cfg s c,
+  lookup (build cfg) s c = ref_lookup cfg (rep (s_cuts cfg) s) (rep (c_cuts cfg) c).
+Proof. exact lookup_via_rep. Qed.
+Print Assumptions C14_lookup_via_representative.
+
 (* non-vacuity: a configuration with an exact and a wildcard claimant on S-VLAN 10 *)
 Definition ex_cfg : config :=
   [ ([98], [([49;48;45;50;48], [])]);                  (* "b": svlan "10-20", cvlan "" *)
@@ -97,3 +151,36 @@ Proof.
   repeat constructor; simpl; intros H; repeat (destruct H as [H|H]; try discriminate H); exact H.
 Qed.
 Print Assumptions C14_nonvacuous.
+
+(* non-vacuity of the parser characterisations and of the class theorem: well-formed strings exist
+   for every constructor, and classes are genuinely larger than one value *)
+Example C14_syntax_nonvacuous :
+  vlan_syntax ([32] ++ [49; 48] ++ [9] ++ [dash] ++ [160] ++ [50; 48] ++ [8195])%N 10 20 /\
+  vlan_syntax ([] ++ [52; 48; 57; 52] ++ [])%N 4094 4094 /\
+  cvlan_syntax [32; 9]%N SelAny /\
+  cvlan_syntax ([9] ++ [65; 110; 89] ++ [12288])%N SelAny /\
+  cvlan_syntax ([] ++ [49; 48; 48] ++ [10])%N (SelExact 100) /\
+  parse_cvlan [9; 65; 110; 89; 12288]%N = Some SelAny /\
+  parse_cvlan [8203; 55]%N = None /\
+  parse_vlan_range [49; 45; 52; 48; 57; 53]%N = None.
+Proof.
+  repeat split; try (vm_compute; reflexivity).
+  - apply VS_range; try reflexivity; discriminate.
+  - apply VS_single; try reflexivity; discriminate.
+  - apply CS_blank; reflexivity.
+  - apply CS_any; reflexivity.
+  - apply CS_exact; try reflexivity; discriminate.
+Qed.
+Print Assumptions C14_syntax_nonvacuous.
+
+Example C14_class_nonvacuous :
+  s_cuts ex_cfg = [10; 11; 12; 13; 10; 21]%N /\ c_cuts ex_cfg = [100; 101]%N /\
+  rep (s_cuts ex_cfg) 17 = 13%N /\ rep (c_cuts ex_cfg) 4000 = 101%N /\ rep (c_cuts ex_cfg) 99 = 0%N /\
+  (forall p, In p (s_cuts ex_cfg) -> N.leb p 14 = N.leb p 20) /\
+  lookup (build ex_cfg) 17 4000 = Some ([98]%N, 0%nat) /\
+  lookup (build ex_cfg) 21 4000 = None.
+Proof.
+  repeat split; try (vm_compute; reflexivity).
+  intros p H. vm_compute in H. repeat (destruct H as [<-|H]; [reflexivity|]). destruct H.
+Qed.
+Print Assumptions C14_class_nonvacuous.
